@@ -26,6 +26,13 @@ const FAMILY_UNKNOWN0: u32 = 700_000;
 const TOL: f64 = 1e-9;
 const MAX_RUN: Duration = Duration::from_millis(900);
 const TAG_ANCHOR: &str = "c10-anchor-unmentioned";
+/// known-finding class: `AddPre i` after a compute that published a score for i (get_trust then answers 0.9)
+const TAG_ADDPRE: &str = "c10-addpre-overwrite";
+/// a compute this slow returned through the 2 s timeout inside `compute_global_trust`
+const TIMEOUT_PATH: Duration = Duration::from_millis(1500);
+const WHAT_TIMEOUT: &str = "compute_global_trust returned only through its 2 s timeout (self-deadlock on last_update); the returned map is the whole cache";
+/// stop generating after this many cases that hit the timeout path
+const MAX_TIMEOUT_CASES: u64 = 3;
 
 // ------------------------------------------------------------------------------------------
 // exact float printing
@@ -296,19 +303,23 @@ struct ShadowFacts {
     n_final: usize,
     any_positive_edge: bool,
     any_stats: bool,
+    /// key set the last compute must return: node set plus anchors (empty when the node set is empty)
+    expected_keys_last: BTreeSet<u32>,
     end: Shadow,
 }
 /// `extra_final_compute`: C11 histories carry no Compute op; the single compute happens at the end
 fn shadow_facts(pre: &[u32], ops: &[Op], extra_final_compute: bool) -> ShadowFacts {
     let mut sh = Shadow::new(pre);
     let mut f = ShadowFacts { ambiguous: false, tbl: BTreeSet::from([0u64]), rounds: vec![], n_final: 0,
-        any_positive_edge: false, any_stats: false, end: Shadow::default() };
+        any_positive_edge: false, any_stats: false, expected_keys_last: BTreeSet::new(), end: Shadow::default() };
     let at_compute = |sh: &Shadow, f: &mut ShadowFacts| {
         sh.ln_args(&mut f.tbl);
         let d = sh.round_diffs();
         if diffs_ambiguous(&d) { f.ambiguous = true; }
         f.rounds.push(d.len());
-        f.n_final = sh.node_set().len();
+        let ns = sh.node_set();
+        f.n_final = ns.len();
+        f.expected_keys_last = if ns.is_empty() { BTreeSet::new() } else { ns.union(&sh.pre).copied().collect() };
     };
     for op in ops {
         match op {
@@ -329,15 +340,18 @@ fn shadow_facts(pre: &[u32], ops: &[Op], extra_final_compute: bool) -> ShadowFac
 
 async fn yield3() { for _ in 0..3 { tokio::task::yield_now().await; } }
 
-struct Exec { t0: Instant, eng: EigenTrustEngine, obs: Vec<Obs>, qviol: Vec<Value> }
+struct Exec { t0: Instant, eng: EigenTrustEngine, obs: Vec<Obs>, qviol: Vec<Value>, timeout_at: Option<(usize, u64)> }
 impl Exec {
     fn new(pre: &[u32]) -> Self {
         let t0 = Instant::now();
         let set: HashSet<NodeId> = pre.iter().map(|i| nid(*i)).collect();
-        Exec { t0, eng: EigenTrustEngine::new(set), obs: vec![], qviol: vec![] }
+        Exec { t0, eng: EigenTrustEngine::new(set), obs: vec![], qviol: vec![], timeout_at: None }
     }
-    async fn compute(&self) -> Vec<(u32, f64)> {
+    async fn compute(&mut self) -> Vec<(u32, f64)> {
+        let t = Instant::now();
         let m = self.eng.compute_global_trust().await;
+        let el = t.elapsed();
+        if el >= TIMEOUT_PATH && self.timeout_at.is_none() { self.timeout_at = Some((self.obs.len(), el.as_millis() as u64)); }
         let mut v: Vec<(u32, f64)> = m.iter().map(|(k, x)| (uid_of(k), *x)).collect();
         v.sort_by_key(|p| p.0);
         v
@@ -369,23 +383,32 @@ impl Exec {
     }
 }
 
-struct RunOut { ops: Vec<Op>, obs: Vec<Obs>, final_map: Vec<(u32, f64)>, elapsed: Duration, qviol: Vec<Value> }
+/// `timeout_at`: (index of the compute that hit the timeout path, its wall time in ms); the run stops there
+struct RunOut { ops: Vec<Op>, obs: Vec<Obs>, final_map: Vec<(u32, f64)>, elapsed: Duration, qviol: Vec<Value>, timeout_at: Option<(usize, u64)> }
 
 /// base ops, then Compute, then a Query of every id of the returned map and of `unknown`
 fn run_with_tail(rt: &tokio::runtime::Runtime, pre: &[u32], base: &[Op], unknown: &[u32]) -> RunOut {
     rt.block_on(async {
         let mut ex = Exec::new(pre);
-        let mut ops = base.to_vec();
-        for op in base { ex.step(op).await; }
-        ex.step(&Op::Compute).await;
-        ops.push(Op::Compute);
-        let fm = match ex.obs.last() { Some(Obs::Map(m)) => m.clone(), _ => vec![] };
-        for i in fm.iter().map(|p| p.0).chain(unknown.iter().copied()) {
-            let q = Op::Query(i);
-            ex.step(&q).await;
-            ops.push(q);
+        let mut ops: Vec<Op> = vec![];
+        for op in base {
+            ex.step(op).await;
+            ops.push(op.clone());
+            if ex.timeout_at.is_some() { break; }
         }
-        RunOut { ops, obs: ex.obs, final_map: fm, elapsed: ex.t0.elapsed(), qviol: ex.qviol }
+        if ex.timeout_at.is_none() {
+            ex.step(&Op::Compute).await;
+            ops.push(Op::Compute);
+        }
+        let fm = ex.obs.iter().rev().find_map(|o| match o { Obs::Map(m) => Some(m.clone()), _ => None }).unwrap_or_default();
+        if ex.timeout_at.is_none() {
+            for i in fm.iter().map(|p| p.0).chain(unknown.iter().copied()) {
+                let q = Op::Query(i);
+                ex.step(&q).await;
+                ops.push(q);
+            }
+        }
+        RunOut { ops, obs: ex.obs, final_map: fm, elapsed: ex.t0.elapsed(), qviol: ex.qviol, timeout_at: ex.timeout_at }
     })
 }
 fn run_fixed(rt: &tokio::runtime::Runtime, pre: &[u32], ops: &[Op]) -> (Vec<Obs>, Duration) {
@@ -396,13 +419,14 @@ fn run_fixed(rt: &tokio::runtime::Runtime, pre: &[u32], ops: &[Op]) -> (Vec<Obs>
         (ex.obs, el)
     })
 }
-/// C11: ops (no compute), then one compute
-fn run_then_compute(rt: &tokio::runtime::Runtime, pre: &[u32], ops: &[Op]) -> (Vec<(u32, f64)>, Duration) {
+/// C11: ops (no compute), then one compute; returns the map, the run's wall time and the compute's wall time
+fn run_then_compute(rt: &tokio::runtime::Runtime, pre: &[u32], ops: &[Op]) -> (Vec<(u32, f64)>, Duration, Duration) {
     rt.block_on(async {
         let mut ex = Exec::new(pre);
         for op in ops { ex.step(op).await; }
+        let t = Instant::now();
         let m = ex.compute().await;
-        (m, ex.t0.elapsed())
+        (m, ex.t0.elapsed(), t.elapsed())
     })
 }
 
@@ -581,8 +605,50 @@ impl<'a> Gen<'a> {
     }
 }
 
-const SHAPES: [(&str, u64); 11] = [("random", 6), ("edges", 3), ("stats-only", 2), ("sybil", 4), ("ema", 2), ("false-first", 2),
-    ("receivers", 2), ("empty", 1), ("anchors-only", 1), ("churn", 2), ("dangling", 2)];
+const SHAPES: [(&str, u64); 13] = [("random", 6), ("edges", 3), ("stats-only", 2), ("sybil", 4), ("ema", 2), ("false-first", 2),
+    ("receivers", 2), ("empty", 1), ("anchors-only", 1), ("churn", 2), ("dangling", 2), ("stale-cache", 1), ("addpre-overwrite", 1)];
+
+/// Keeps the known-finding class `c10-addpre-overwrite` (an `AddPre i` after a compute that published a
+/// score for i, i not removed since) out of every shape but the dedicated one: elsewhere such an AddPre is
+/// redirected to a fresh never-mentioned id.  In the dedicated shape (`allow`) every such AddPre is followed
+/// immediately by `Query i`, so the overwritten answer is always observed.  "Published" is predicted from the
+/// shadow (node set plus anchors at each compute); the TAG itself is decided from the observed maps.
+fn sanitize_addpre(pre: &[u32], ops: Vec<Op>, allow: bool) -> Vec<Op> {
+    let mut sh = Shadow::new(pre);
+    let mut published: BTreeSet<u32> = BTreeSet::new();
+    let mut fresh = GHOST0 + 100;
+    let mut out: Vec<Op> = Vec::with_capacity(ops.len() + 4);
+    let mut k = 0;
+    while k < ops.len() {
+        let op = ops[k].clone();
+        match &op {
+            Op::Compute => {
+                let ns = sh.node_set();
+                if !ns.is_empty() { published.extend(ns.iter().copied()); published.extend(sh.pre.iter().copied()); }
+                out.push(op);
+            }
+            Op::RemoveNode(x) => { published.remove(x); sh.apply(&op); out.push(op); }
+            Op::AddPre(x) if published.contains(x) => {
+                let follows = ops.get(k + 1) == Some(&Op::Query(*x));
+                if allow {
+                    sh.apply(&op);
+                    out.push(op.clone());
+                    if !follows { out.push(Op::Query(*x)); }
+                } else {
+                    let y = fresh;
+                    fresh += 1;
+                    let nop = Op::AddPre(y);
+                    sh.apply(&nop);
+                    out.push(nop);
+                    if follows { out.push(Op::Query(y)); k += 1; }
+                }
+            }
+            _ => { sh.apply(&op); out.push(op); }
+        }
+        k += 1;
+    }
+    out
+}
 
 fn gen_base(rng: &mut Rng) -> Hist {
     let total: u64 = SHAPES.iter().map(|s| s.1).sum();
@@ -590,7 +656,8 @@ fn gen_base(rng: &mut Rng) -> Hist {
     let mut si = 0;
     while r >= SHAPES[si].1 { r -= SHAPES[si].1; si += 1; }
     let shape = SHAPES[si].0;
-    let p = match rng.below(10) { 0..=3 => rng.range(2, 6), 4..=7 => rng.range(7, 20), _ => rng.range(21, 40) } as u32;
+    let mut p = match rng.below(10) { 0..=3 => rng.range(2, 6), 4..=7 => rng.range(7, 20), _ => rng.range(21, 40) } as u32;
+    if shape == "stale-cache" { p = p.max(4); }
     // initial anchors: 0..3 ids, some of them never mentioned in any report, sometimes a duplicate
     let mut pre: Vec<u32> = vec![];
     let npre = match shape { "anchors-only" => rng.range(1, 3), _ => rng.below(4) };
@@ -647,6 +714,39 @@ fn gen_base(rng: &mut Rng) -> Hist {
         "empty" => { if g.rng.chance(1, 2) { let q = g.rng.range(1, 4) as usize; g.mix(q, [0, 0, 0, 0, 1, 2, 6, 0], 75); } }
         "anchors-only" => g.mix(nops.min(20), [0, 0, 6, 4, 3, 5, 8, 0], 75),
         "churn" => g.mix(nops, [25, 15, 10, 8, 14, 10, 12, 8], 70),
+        "stale-cache" => {
+            // A->B and C->D, compute, remove A, compute, query B: B is no longer in the node set, the second map
+            // has the remaining keys only and B keeps its old published score in the cache
+            let mut ids: Vec<u32> = (1..=p).collect();
+            g.rng.shuffle(&mut ids);
+            let (a, b, c, d) = (ids[0], ids[1], ids[2], ids[3]);
+            if g.rng.chance(1, 2) { let q = g.rng.below(6) as usize; g.mix(q, [10, 10, 2, 1, 0, 0, 3, 0], 80); }
+            g.local(a, b, true); g.local(c, d, true);
+            g.r_compute();
+            if g.rng.chance(1, 2) { g.ops.push(Op::Query(b)); }
+            g.removed.push(a); g.pairs.retain(|(f, t)| *f != a && *t != a);
+            g.ops.push(Op::RemoveNode(a));
+            g.r_compute();
+            g.ops.push(Op::Query(b));
+            if g.rng.chance(1, 2) { g.ops.push(Op::Query(a)); }
+            if g.rng.chance(1, 3) { let q = g.rng.below(8) as usize; g.mix(q, [10, 10, 2, 1, 2, 3, 5, 0], 80); }
+        }
+        "addpre-overwrite" => {
+            // known-finding class: a published id is made an anchor afterwards; get_trust answers 0.9 until the next compute
+            g.mix((nops / 3).max(3), [30, 20, 3, 1, 0, 0, 4, 0], 85);
+            g.r_compute();
+            let mut sh = Shadow::new(&pre);
+            for o in &g.ops { sh.apply(o); }
+            let mut keys: Vec<u32> = sh.node_set().into_iter().collect();
+            if !keys.is_empty() && g.rng.chance(1, 3) { keys.extend(sh.pre.iter().copied()); }   // also an id that already is an anchor
+            let i = if keys.is_empty() { g.pool_id() } else { *g.rng.pick(&keys) };
+            if g.rng.chance(1, 2) { g.ops.push(Op::Query(i)); }
+            g.pre_now.insert(i);
+            g.ops.push(Op::AddPre(i));
+            g.ops.push(Op::Query(i));
+            if g.rng.chance(1, 2) { g.r_compute(); g.ops.push(Op::Query(i)); }
+            if g.rng.chance(1, 3) { let q = g.rng.below(6) as usize; g.mix(q, [10, 10, 0, 1, 1, 3, 5, 0], 80); }
+        }
         _ => { // "dangling": statistics for everybody, few raters, most nodes make no statement
             for i in 1..=p.min(25) { let u = pick_upd(g.rng); g.ops.push(Op::UpdStats(i, u)); }
             let e = g.rng.range(1, 6);
@@ -655,6 +755,7 @@ fn gen_base(rng: &mut Rng) -> Hist {
         }
     }
     let ops = std::mem::take(&mut g.ops);
+    let ops = sanitize_addpre(&pre, ops, shape == "addpre-overwrite");
     Hist { pre, ops, shape: shape.into(), pool: p }
 }
 
@@ -696,13 +797,41 @@ struct Evald {
     run: RunOut,
     facts: ShadowFacts,
 }
-enum EvalErr { Ambiguous, Slow }
+enum EvalErr { Ambiguous, Slow, TimeoutPath(Box<Evald>) }
+
+/// does the history contain `AddPre i` after a compute whose returned map contained i (i not removed in between)?
+fn addpre_overwrites(ops: &[Op], obs: &[Obs]) -> bool {
+    let mut published: BTreeSet<u32> = BTreeSet::new();
+    for (op, ob) in ops.iter().zip(obs.iter()) {
+        match (op, ob) {
+            (Op::Compute, Obs::Map(m)) => published.extend(m.iter().map(|p| p.0)),
+            (Op::RemoveNode(i), _) => { published.remove(i); }
+            (Op::AddPre(i), _) if published.contains(i) => return true,
+            _ => {}
+        }
+    }
+    false
+}
+
+fn timeout_violation(sum: &mut Summary, id: u64, pre: &[u32], ops: &[Op], at: (usize, u64), returned: &[(u32, f64)], expected: &BTreeSet<u32>) {
+    let got: BTreeSet<u32> = returned.iter().map(|p| p.0).collect();
+    sum.violation(id, WHAT_TIMEOUT, &[], json!({
+        "pre": pre, "history": ops.iter().map(json_op).collect::<Vec<_>>(), "compute_op_index": at.0, "elapsed_ms": at.1,
+        "returned_keys": got, "expected_keys(node_set+anchors)": expected, "key_set_differs": got != *expected}));
+    sum.count("timeout-path-cases");
+}
 
 fn eval_c10(rt: &tokio::runtime::Runtime, sum: &mut Summary, id: u64, tags: &[&str], pre: &[u32], base: &[Op], unknown: &[u32]) -> Result<Evald, EvalErr> {
     let mut attempt = 0;
     loop {
         attempt += 1;
         let run = run_with_tail(rt, pre, base, unknown);
+        if let Some(at) = run.timeout_at {
+            // the run stopped at that compute; the executed prefix is the reproduction
+            let facts = shadow_facts(pre, &run.ops, false);
+            timeout_violation(sum, id, pre, &run.ops, at, &run.final_map, &facts.expected_keys_last);
+            return Err(EvalErr::TimeoutPath(Box::new(Evald { pre: pre.to_vec(), run, facts })));
+        }
         let (obs2, el2) = run_fixed(rt, pre, &run.ops);
         if run.elapsed > MAX_RUN || el2 > MAX_RUN {
             // a decay factor other than 1.0 may have been applied: the run says nothing; retry, then give up
@@ -734,8 +863,10 @@ fn rounds_class(r: usize) -> &'static str {
     match r { 0 => "0", 1 => "1", 2 => "2", 3 => "3", 4 => "4", 5..=6 => "5-6", 7 => "7", 8..=15 => "8-15", 16..=30 => "16-30", 31..=49 => "31-49", _ => "50" }
 }
 
-struct Out { w: CaseWriter, sum: Summary, next_id: u64, seen: HashSet<String> }
+struct Out { w: CaseWriter, sum: Summary, next_id: u64, seen: HashSet<String>, timeout_cases: u64 }
+
 impl Out {
+    fn stop(&self) -> bool { self.timeout_cases >= MAX_TIMEOUT_CASES }
     fn emit(&mut self, term: String, desc: Value, n: usize, nontriv: bool, key: String) -> u64 {
         let id = self.next_id;
         self.next_id += 1;
@@ -791,7 +922,17 @@ fn do_base(rt: &tokio::runtime::Runtime, out: &mut Out, rng: &mut Rng, h: Hist, 
         Ok(e) => e,
         Err(EvalErr::Ambiguous) => { out.sum.discarded_ambiguous += 1; out.sum.count("discarded:threshold"); return; }
         Err(EvalErr::Slow) => { out.sum.discarded_ambiguous += 1; out.sum.count("discarded:slow-run"); return; }
+        Err(EvalErr::TimeoutPath(e)) => {
+            // reported as a direct violation; the executed prefix is still written so that the model is compared with the returned cache
+            out.timeout_cases += 1;
+            let nt = nontrivial(&e.facts, e.run.final_map.len());
+            out.emit(c10_term(&e), c10_desc(&e, &format!("{}(timeout-path prefix)", h.shape), &[], Value::Null), e.facts.n_final, nt, hist_key(&h.pre, &e.run.ops));
+            return;
+        }
     };
+    // known-finding class of the base history (inherited by its derived histories: same operations)
+    let base_tags: Vec<&str> = if addpre_overwrites(&base.run.ops, &base.run.obs) { vec![TAG_ADDPRE] } else { vec![] };
+    if !base_tags.is_empty() { out.sum.count(&format!("tag:{}(base histories)", TAG_ADDPRE)); }
     // input distribution (base histories only; derived ones repeat the same operations)
     out.sum.count(&format!("shape:{}", h.shape));
     out.sum.count(&format!("n_final:{}", size_class(base.facts.n_final)));
@@ -809,7 +950,7 @@ fn do_base(rt: &tokio::runtime::Runtime, out: &mut Out, rng: &mut Rng, h: Hist, 
     if !ns.is_empty() { out.sum.count(&format!("final:dangling-share:{}", match dangling * 4 / ns.len() { 0 => "<25%", 1 => "25-50%", 2 => "50-75%", _ => ">=75%" })); }
 
     let nt = nontrivial(&base.facts, base.run.final_map.len());
-    let id = out.emit(c10_term(&base), c10_desc(&base, &h.shape, &[], Value::Null), base.facts.n_final, nt, hist_key(&h.pre, &base.run.ops));
+    let id = out.emit(c10_term(&base), c10_desc(&base, &h.shape, &base_tags, Value::Null), base.facts.n_final, nt, hist_key(&h.pre, &base.run.ops));
     debug_assert_eq!(id, base_id);
 
     // ---- monotone families (direct check 3) ----
@@ -835,18 +976,27 @@ fn do_base(rt: &tokio::runtime::Runtime, out: &mut Out, rng: &mut Rng, h: Hist, 
         let first_id = out.next_id;
         let mut ds: Vec<Evald> = vec![];
         let mut bad = false;
+        let mut timeout_hit = false;
         let nviol = out.sum.direct_violations.len();
         for (k, u) in upds.iter().enumerate() {
             let mut ops = h.ops.clone();
             ops.push(Op::UpdStats(x, u.clone()));
             match eval_c10(rt, &mut out.sum, first_id + k as u64, &tags, &h.pre, &ops, &unknown) {
                 Ok(e) => ds.push(e),
+                Err(EvalErr::TimeoutPath(_)) => { out.timeout_cases += 1; bad = true; timeout_hit = true; break; }
                 Err(_) => { bad = true; break; }
             }
         }
         if bad {
             // the whole family is discarded (also the direct violations its members may have recorded)
-            out.sum.direct_violations.truncate(nviol);
+            if timeout_hit {
+                // keep only the timeout-path report of this family
+                let keep: Vec<Value> = out.sum.direct_violations.drain(nviol..).filter(|v| v["what"] == WHAT_TIMEOUT).collect();
+                out.sum.direct_violations.extend(keep);
+                if out.stop() { return; }
+            } else {
+                out.sum.direct_violations.truncate(nviol);
+            }
             out.sum.discarded_ambiguous += 1;
             out.sum.count("discarded:family");
             continue;
@@ -866,7 +1016,9 @@ fn do_base(rt: &tokio::runtime::Runtime, out: &mut Out, rng: &mut Rng, h: Hist, 
             let fam_desc = json!({"base_case": base_id, "x": x, "class": class, "appended": coq_upd(&upds[k]),
                 "score_base": sb, "score_here": s[k]});
             let nt = nontrivial(&d.facts, d.run.final_map.len());
-            let id = out.emit(c10_term(d), c10_desc(d, &format!("{}+{}", h.shape, upd_kind(&upds[k])), &tags, fam_desc), d.facts.n_final, nt, hist_key(&h.pre, &d.run.ops));
+            let mut case_tags = tags.clone();
+            if addpre_overwrites(&d.run.ops, &d.run.obs) { case_tags.push(TAG_ADDPRE); }
+            let id = out.emit(c10_term(d), c10_desc(d, &format!("{}+{}", h.shape, upd_kind(&upds[k])), &case_tags, fam_desc), d.facts.n_final, nt, hist_key(&h.pre, &d.run.ops));
             debug_assert_eq!(id, first_id + k as u64);
             out.sum.count(&format!("derived:{}", upd_kind(&upds[k])));
         }
@@ -875,7 +1027,7 @@ fn do_base(rt: &tokio::runtime::Runtime, out: &mut Out, rng: &mut Rng, h: Hist, 
 
 fn mode_c10(args: &Args, rt: &tokio::runtime::Runtime) {
     let mut rng = Rng::new(args.seed);
-    let mut out = Out { w: CaseWriter::new(&args.out, "cases", HEADER, "tcase", "check_case", "prop_case", 40), sum: Summary::default(), next_id: 0, seen: HashSet::new() };
+    let mut out = Out { w: CaseWriter::new(&args.out, "cases", HEADER, "tcase", "check_case", "prop_case", 40), sum: Summary::default(), next_id: 0, seen: HashSet::new(), timeout_cases: 0 };
     out.sum.rule = "C10: histories (5-80 operations, id pools 2-40, plus node sets of exactly 99/100/101/102/120/499/500/501/502/520) of reports \
 (both API routes), statistics updates with boundary values (uptime 86399/86400/86401, contributions 0/1/2/1000/2^40), anchor additions/removals \
 (some anchors never mentioned in a report), node removals, computes and queries; each ends with a compute and a query of every returned id and \
@@ -884,9 +1036,12 @@ Non-trivial = the history contains at least one positive edge or one statistics 
 distinct = different (anchors, operations) text".into();
     let (nbase, nfam) = if args.thorough() { (3000, 3) } else { (280, 3) };
     for _ in 0..nbase {
+        if out.stop() { break; }
         let mut r2 = rng.fork();
         let h = gen_base(&mut r2);
-        do_base(rt, &mut out, &mut r2, h, nfam);
+        // the known-finding shape stays a handful of cases: no derived families
+        let fams = if h.shape == "addpre-overwrite" { 0 } else { nfam };
+        do_base(rt, &mut out, &mut r2, h, fams);
     }
     // big node sets (own shards)
     let mut bigs: Vec<u32> = vec![99, 100, 101, 102, 120, 499, 500, 501, 502, 520];
@@ -895,12 +1050,14 @@ distinct = different (anchors, operations) text".into();
         for _ in 0..30 { bigs.push(rng.range(61, 600) as u32); }
     }
     for n in bigs {
+        if out.stop() { break; }
         let mut r2 = rng.fork();
         let h = gen_big(&mut r2, n);
         let fams = if n <= 120 { 1 } else { 0 };
         out.sum.count(&format!("big:{}", n));
         do_base(rt, &mut out, &mut r2, h, fams);
     }
+    if out.stop() { out.sum.notes.push(format!("generation stopped after {} cases whose compute returned through the timeout path", out.timeout_cases)); }
     out.w.flush();
     out.sum.write(&args.out);
 }
@@ -1004,7 +1161,7 @@ fn gen_c11(rng: &mut Rng, n: u32, a: u32, s: u32) -> C11 {
 
 fn mode_c11(args: &Args, rt: &tokio::runtime::Runtime) {
     let mut rng = Rng::new(args.seed);
-    let mut out = Out { w: CaseWriter::new(&args.out, "cases", HEADER, "c11case", "check_c11", "prop_c11", 40), sum: Summary::default(), next_id: 0, seen: HashSet::new() };
+    let mut out = Out { w: CaseWriter::new(&args.out, "cases", HEADER, "c11case", "check_c11", "prop_c11", 40), sum: Summary::default(), next_id: 0, seen: HashSet::new(), timeout_cases: 0 };
     out.sum.rule = "C11: a anchors (1-5, sometimes 50), h honest nodes (a share of them silent), s Sybils (1-30, sometimes 100-300; thorough up to 1000) \
 forming a closed set (clique/star/chain/ring/self-loops/random, optionally rating honest nodes), equal statistics (none, or one identical update \
 sequence for every id), n = a+h+s hitting 12, 99-102, 499-502 and random sizes; operations shuffled, no compute inside, ONE final compute. \
@@ -1040,13 +1197,23 @@ Case 0 is the ledger scenario. Non-trivial = at least one positive edge or one s
         let n = c.a + c.h + c.s;
         let facts = shadow_facts(&c.pre, &c.ops, true);
         if facts.ambiguous { out.sum.discarded_ambiguous += 1; out.sum.count("discarded:threshold"); continue; }
+        if out.stop() { break; }
+        let id = out.next_id;
         let mut res = None;
         for _ in 0..3 {
-            let (m, el) = run_then_compute(rt, &c.pre, &c.ops);
+            let (m, el, cel) = run_then_compute(rt, &c.pre, &c.ops);
+            if cel >= TIMEOUT_PATH {
+                // reported; the case is still written so that the model is compared with the returned cache
+                let mut ops = c.ops.clone();
+                ops.push(Op::Compute);
+                timeout_violation(&mut out.sum, id, &c.pre, &ops, (c.ops.len(), cel.as_millis() as u64), &m, &facts.expected_keys_last);
+                out.timeout_cases += 1;
+                res = Some(m);
+                break;
+            }
             if el <= MAX_RUN { res = Some(m); break; }
         }
         let Some(m) = res else { out.sum.discarded_ambiguous += 1; out.sum.count("discarded:slow-run"); continue };
-        let id = out.next_id;
         for x in &facts.tbl {
             let y = ln_oracle(*x);
             if !(y >= 0.0) { out.sum.violation(id, "ln oracle assumption", &[], json!({"x": x.to_string(), "ln": coq_float(y)})); }
@@ -1083,6 +1250,7 @@ Case 0 is the ledger scenario. Non-trivial = at least one positive edge or one s
         let key = format!("{}|{:?}", hist_key(&c.pre, &c.ops), c.sybils);
         out.emit(term, desc, n as usize, nt, key);
     }
+    if out.stop() { out.sum.notes.push(format!("generation stopped after {} cases whose compute returned through the timeout path", out.timeout_cases)); }
     out.w.flush();
     out.sum.write(&args.out);
 }
@@ -1096,6 +1264,10 @@ fn main() {
     match mode.as_str() {
         "c10" => mode_c10(&args, &rt),
         "c11" => mode_c11(&args, &rt),
-        other => { eprintln!("unknown --mode {} (c10 | c11)", other); std::process::exit(2); }
+        "probe" => { // diagnostic: wall time of one report + one compute
+            let (m, el, cel) = run_then_compute(&rt, &[], &[Op::UpdLocal { f: 1, t: 2, ok: true, via: false }]);
+            println!("probe: run {:?}, compute {:?}, returned {:?}", el, cel, m);
+        }
+        other => { eprintln!("unknown --mode {} (c10 | c11 | probe)", other); std::process::exit(2); }
     }
 }
